@@ -1,5 +1,13 @@
+//! vh-registers: C06 — register replicas converge and accept only authorised writes.
+mod c06;
+
 fn main() {
     let cfg = vh_core::RunCfg::from_args();
-    eprintln!("vh-registers: property {} not built yet", cfg.prop);
-    std::process::exit(2);
+    match cfg.prop.as_str() {
+        "C06" => c06::run(cfg),
+        other => {
+            eprintln!("vh-registers: unknown property {other}");
+            std::process::exit(2);
+        }
+    }
 }
